@@ -338,4 +338,46 @@ PROPS["C08"] = {
     "timeout_quick": 1200, "timeout_thorough": 5400,
 }
 
+_PE_RULE = ("histories (25-110 scheduler decisions, then a fault-free drain to a fixed point) on the REAL pod controller (pkg/controller/pod Reconcile) and PodENI controller "
+            "(pkg/controller/pod-eni Reconcile, gcCRPodENIs, gcSecondaryENI/gcMemberENI) for 1-3 pod names over a fake API server (controller-runtime fake client behind a wrapper that owns "
+            "optimistic concurrency: never-reused versions, Conflict on stale Update/Status().Update, none on Patch/Delete, finalizer + deletionTimestamp) and a fake cloud (interfaces with tags, "
+            "creation time, attachment; foreign interfaces of every tag/age/type/status). Every API-server / cloud call of an actor's main line is parked until a seeded scheduler releases it "
+            "(possibly failing it), so reconciliations of the two controllers and passes of the two collectors interleave call by call with pod creation, graceful termination, completion, removal, "
+            "recreation under the same name on another node, and virtual-clock steps (multiples of 70 s: no age equals the 600 s grace, TTLs are 35 mod 70); parallel create/attach workers run through "
+            "or are paused at one call. Each call is one protocol line whose outcome is the answer plus the record and the name's interfaces afterwards; the Lean model must accept the event and agree on that state. "
+            "Monitors (independent of the model): phase edges, no detach/delete of an interface named by the record of the running pod instance, roll-back of failed creation, convergence after deletion, "
+            "same interfaces/addresses at re-bind, TTL against the harness's own observation times, leak-collector targets (tags, age, references).")
+_PE_TRUST = ["Model/PodEni.lean (hand-written model, one transition per API-server/cloud call), Proofs/PodEni*.lean (four invariant groups, generated layout, grind-discharged, kernel-checked)",
+             "harness/vh/eworld*.go: the fake API server's concurrency semantics (versions, conflicts, finalizers), the fake cloud (idempotent detach, delete refused while attached, delete of an absent interface succeeds), the scheduler, the virtual clock (timestamps presented relative to the wall clock; lastSeen shown 3 s older so that a rewritten timestamp is always visible)",
+             "controller-runtime v0.20.2 fake client (object store only)"]
+_PE_ASSUME = ["reconciliations of one controller for one name do not overlap (workqueue guarantee); a read returns the current object (informer-cache staleness beyond 'the reconciliation was paused after its read' is not modelled)",
+              "the clock does not move while the pod controller is between its first interface creation and the end of that reconciliation (the 10-minute grace period exists for exactly this window)",
+              "pod and node attributes that decide whether a pod needs a record are immutable for a pod instance; one cluster, no trunk mode (member interfaces appear only as foreign population), IPv4 only",
+              "cloud calls fail before taking effect (no timeout-after-effect); nobody but the controllers and the harness's 'foreign' population touches interfaces or records"]
+
+PROPS["C10"] = {
+    "lean": ["C10"],
+    "required": ["C10.c10_phase_edges_partial", "C10.c10_undocumented_edge_reachable", "C10.c10_deleting_is_final", "C10.c10_removed_only_when_deleting",
+                 "C10.c10_delete_requested_only", "C10.c10_no_pull_from_running_pod", "C10.c10_record_of_running_pod_stays",
+                 "C10.c10_no_interface_without_record", "C10.c10_reconciliation_ends_clean", "C10.c10_leaked_only_by_failed_delete"],
+    "rule": _PE_RULE,
+    "technique": "Lean 4: small-step model of the pod controller, the PodENI controller and the two collectors at API-call granularity (optimistic concurrency, finalizers, fresh ids); four invariant groups proved for every event, hence every interleaving / history; property theorems as corollaries; trace-acceptance correspondence of every call of the real controllers, with state comparison after each call",
+    "level_text": "Theorems over all histories (all interleavings of the four actors with pod lifecycles, clock steps and failing calls): every phase change is a documented edge or one of two identified extra edges (the full statement is proved false with a witness; Unbind never returns to Detaching since fix 1c9af3e; nothing leaves Deleting; removal only after a delete request, which is made only in Deleting or for a non-fixed record bound to a dead instance); no detach/delete by anyone ever hits an interface named by the record of the running pod instance; between pod-controller reconciliations every interface is foreign, recorded, or left by a roll-back whose own delete failed, and a reconciliation cannot end holding created interfaces. 'Deleted pod => interface deleted and record gone' (liveness) is checked by the fixed-point monitor on the real code, not proved: partial.",
+    "level_note": "Trusted: Lean kernel; the model is tied to the code by the correspondence run only (see trusted_base for the fake API server and cloud).",
+    "assumptions": _PE_ASSUME, "trusted_base": _PE_TRUST, "design_ref": "DESIGN.md §4 C10",
+    "timeout_quick": 1800, "timeout_thorough": 7200,
+}
+PROPS["C11"] = {
+    "lean": ["C11"],
+    "required": ["C11.c11_allocations_never_change", "C11.c11_same_interface_after_recreation", "C11.c11_bind_means_attached", "C11.c11_address_of_interface_never_changes",
+                 "C11.c11_reaped_only_after_ttl", "C11.c11_fixed_record_only_reaped_by_collector", "C11.c11_keep_rule", "C11.c11_keep_order_independent",
+                 "C11.c11_leak_collector_reaps_only_ours_old_unreferenced", "C11.c11_leak_candidate_rule"],
+    "rule": _PE_RULE,
+    "technique": "Lean 4: same small-step model and invariants as C10; TTL / keep rule and leak-collector decision as pure functions with their laws; observation-time ghost state related to the recorded lastSeen by an invariant; trace-acceptance correspondence of the real controllers under a virtual clock",
+    "level_text": "Theorems over all histories: a record's allocations never change while it exists, so any history that keeps the record ends with the same interfaces and addresses, Bind is written only when all of them are attached, and an interface never changes its address; the collector marks a fixed-address record Deleting only when every fixed allocation is TTL with a well-formed duration that has elapsed since the last observation of the pod (bind, or a collector pass that found it), nobody else sends a fixed record to Deleting or requests its deletion before that; the vote is the documented any-keeps rule and order independent; an interface the leak collector deletes or detaches is ours, at least 600 s old and named by no record when it is reaped. 'The recreated pod is eventually re-bound' (liveness) is checked by the fixed-point monitor, not proved: partial.",
+    "level_note": "Trusted: Lean kernel; the model is tied to the code by the correspondence run only. API errors are not injected into the lastSeen touch (C11 does not quantify over faults).",
+    "assumptions": _PE_ASSUME, "trusted_base": _PE_TRUST, "design_ref": "DESIGN.md §4 C11",
+    "timeout_quick": 1800, "timeout_thorough": 7200,
+}
+
 NOT_APPLICABLE = {}
